@@ -305,9 +305,24 @@ func (in *Interp) sliceOp(fr *Frame, ins *ssa.Slice) Value {
 		return in.strFromBytes(xv.sym[lo:hi])
 	case SliceV:
 		if xv.slen != nil {
-			// only s[lo:] with concrete lo is supported on symbolic-length slices
-			if ins.High != nil || ins.Max != nil {
-				panic(&pathEnd{kind: "unsupported", msg: "s[:hi] on a symbolic-length slice"})
+			// s[lo:] and s[lo:hi] with concrete lo are supported on symbolic-length slices
+			if ins.Max != nil {
+				panic(&pathEnd{kind: "unsupported", msg: "s[::max] on a symbolic-length slice"})
+			}
+			if ins.High != nil {
+				lo := getI(ins.Low, 0)
+				hiT := in.idx64(ins.High.Type(), fr.get(ins.High).(*Term))
+				// Go requires lo <= hi <= cap; the capacity of a symbolic-length slice is its length
+				okT := in.F.And(in.F.ULe(in.F.Const(64, uint64(lo)), hiT), in.F.ULe(hiT, xv.slen))
+				if lo < 0 || !in.decide(okT) {
+					in.goPanicRuntime("slice bounds out of range with symbolic length")
+				}
+				nl := in.F.Sub(hiT, in.F.Const(64, uint64(lo)))
+				if nl.konst {
+					n := int(nl.cv)
+					return SliceV{obj: xv.obj, off: xv.off + lo, len: n, cap: n}
+				}
+				return SliceV{obj: xv.obj, off: xv.off + lo, len: xv.len - lo, cap: xv.cap - lo, slen: nl}
 			}
 			lo := getI(ins.Low, 0)
 			if lo < 0 || !in.decide(in.F.ULe(in.F.Const(64, uint64(lo)), xv.slen)) {
@@ -1258,6 +1273,26 @@ func (in *Interp) callBuiltin(caller *Frame, b *ssa.Builtin, args []Value, site 
 		var src []Value
 		switch y := args[1].(type) {
 		case SliceV:
+			if y.slen != nil {
+				// symbolic-length source: supported only when the copy cannot change any
+				// modelled cell (source and destination cells are the same terms, e.g. zero-filled buffers)
+				var dcells []Value
+				if dst.obj != nil {
+					dcells = dst.obj.val.(*ArrayV).e[dst.off : dst.off+dst.len]
+				}
+				scells := y.obj.val.(*ArrayV).e[y.off : y.off+y.len]
+				n := len(scells)
+				if len(dcells) < n {
+					n = len(dcells)
+				}
+				for i := 0; i < n; i++ {
+					if scells[i] != dcells[i] {
+						panic(&pathEnd{kind: "unsupported", msg: "copy from a symbolic-length slice with differing content"})
+					}
+				}
+				dl := in.lenTerm(dst)
+				return F.Ite(F.ULt(dl, y.slen), dl, y.slen)
+			}
 			src = in.sliceElems(y)
 		case Str:
 			for _, t := range in.strBytes(y) {
